@@ -60,6 +60,8 @@ def op_term(o):
         return f"[OStart {o[1]}]"
     if k == "RF":
         return f"[OFailStart {o[1]}]"
+    if k == "D":
+        return "[ODrop]"
     if k == "SS":
         return f"[OSub {o[1]} (mkC {o[2]} {o[3]} {o[4]} {o[5]}); OSettle]"
     raise ValueError(o)
@@ -154,6 +156,37 @@ def gen_exhaustive_starting(cap, maxlen):
     return cases
 
 
+def gen_exhaustive_drop(cap, maxlen):
+    """the port is dropped: D at most once, nothing is published / subscribed after it. Covers a
+    burst followed by the drop with no settle in between, with forwarders that already ran."""
+    big = ("b", cap + 2)
+    alpha = ["p", big, ("S", 0) + CONV_ALL, ("S", 1, 2, 0, 1, 0), ("T",), ("D",), ("K", 0)]
+    cases = []
+    for n in range(2, maxlen + 1):
+        for seq in itertools.product(alpha, repeat=n):
+            if sum(1 for o in seq if o == ("D",)) != 1:
+                continue
+            d = seq.index(("D",))
+            if any(o == "p" or o == big or o[0] == "S" for o in seq[d + 1:]):
+                continue
+            if not any(isinstance(o, tuple) and o[0] == "S" for o in seq[:d]):
+                continue
+            cases.append({"poison": [], "ops": renumber(list(seq) + [("T",)]), "kind": "exh.drop"})
+    return cases
+
+
+def gen_exhaustive_churn(n):
+    """exactly n operations over {publish, subscribe a0, subscribe a1, stop a0, settle}: subscriber
+    churn inside one batch (a subscriber found dead while a later subscription is queued behind it)"""
+    alpha = ["p", ("S", 0) + CONV_ALL, ("S", 1) + CONV_ALL, ("K", 0), ("T",)]
+    cases = []
+    for seq in itertools.product(alpha, repeat=n):
+        if not any(isinstance(o, tuple) and o[0] == "S" for o in seq) or "p" not in seq:
+            continue
+        cases.append({"poison": [], "ops": renumber(list(seq) + [("T",)]), "kind": "exh.churn"})
+    return cases
+
+
 def gen_random(rng, cap, n):
     cases = []
     sizes = [1, 1, 2, 3, 5, max(1, cap - 1), cap, cap + 1, cap + 1, cap + 5, 2 * cap + 3, 40]
@@ -221,6 +254,17 @@ def gen_random(rng, cap, n):
         for a in range(n_act):
             if kind[a] == "park" and not any(o[0] in ("R", "RF") and o[1] == a for o in ops if isinstance(o, tuple)):
                 ops.append(("R", a))
+        if rng.random() < 0.25 and len(ops) > 2:
+            # drop the port somewhere (often right after a publish, no settle in between);
+            # nothing is published or subscribed afterwards
+            pubs_at = [i for i, o in enumerate(ops) if o == "p" or (isinstance(o, tuple) and o[0] == "b")]
+            d = (rng.choice(pubs_at) + 1) if pubs_at and rng.random() < 0.7 else rng.randrange(1, len(ops))
+            rest = [o for o in ops[d:] if not (o == "p" or (isinstance(o, tuple) and o[0] in ("b", "S", "SS")))]
+            # a self-subscribing actor that was never spawned must not be referenced later
+            spawned = {o[1] for o in ops[:d] if isinstance(o, tuple) and o[0] == "SS"}
+            never = {a for a in range(n_act) if kind[a] == "self" and a not in spawned}
+            rest = [o for o in rest if not (isinstance(o, tuple) and len(o) > 1 and o[1] in never)]
+            ops = ops[:d] + [("D",)] + rest
         ops.append(("T",))
         ops = renumber(ops)
         total = n_pubs({"ops": ops})
@@ -299,6 +343,8 @@ def run(chk):
     cases = load_corpus()
     cases += gen_exhaustive(gen_cap, 4 if quick else 5)
     cases += gen_exhaustive_starting(gen_cap, 4 if quick else 5)
+    cases += gen_exhaustive_drop(gen_cap, 5 if quick else 6)
+    cases += gen_exhaustive_churn(5 if quick else 6)
     cases += gen_random(chk.rng, gen_cap, (1500 if quick else 20000) * factor)
     lines = [sc_line(c) for c in cases]
     impl1 = run_harness(b1, "eng_outport", lines, shards=8)
@@ -323,6 +369,8 @@ def run(chk):
             chk.count("op." + o[0])
         if c["poison"]:
             chk.count("with_poison")
+        if any(o[0] == "D" for o in c["ops"]):
+            chk.count("with_port_dropped")
         if any(o[0] in ("R", "RF", "SS") for o in c["ops"]):
             chk.count("with_subscriber_subscribed_before_Running")
         line = sc_line(c)
@@ -357,9 +405,9 @@ def run(chk):
     chk.coverage["distinct_nontrivial"] = len(distinct)
     chk.coverage["rule"] = ("exhaustive: all operation sequences of length <= %d over {publish, burst of ring+2, subscribe a0, "
                             "subscribe a1 (even only), settle, stop a0, hold a1, give a1 1} followed by a settle, and the same lengths over "
-                            "{publish, burst, subscribe parked a2, self-subscribing a3, start a2, start a3, fail start a2, settle, stop a2}; random: seeded "
+                            "{publish, burst, subscribe parked a2, self-subscribing a3, start a2, start a3, fail start a2, settle, stop a2}, and length <= 5 over {publish, burst, subscribe a0, subscribe a1, settle, drop the port (once, nothing published after), stop a0}, and exactly 5 operations over {publish, subscribe a0, subscribe a1, stop a0, settle}; random: seeded "
                             "scenarios of 6-40 operations over up to 4 receivers (re-subscription, bursts around the ring size, "
-                            "stops, gated handlers, failing handlers, dropping converters, receivers that are still Starting when subscribed / that subscribe from pre_start / whose pre_start fails); both builds on every case. "
+                            "stops, gated handlers, failing handlers, dropping converters, receivers that are still Starting when subscribed / that subscribe from pre_start / whose pre_start fails, the port dropped right after a burst); both builds on every case. "
                             "non-trivial = some subscription receives at least one item; distinct = distinct scenario lines"
                             % (4 if quick else 5))
     chk.coverage["exhaustive_part"] = "operation sequences of length <= %d over an 8-letter alphabet" % (4 if quick else 5)
